@@ -33,7 +33,7 @@ func init() { core.Register(area{}) }
 
 func (area) Name() string { return "codec" }
 
-const kinds = 9
+const kinds = 10
 
 func (area) Run(c *core.Ctx) error {
 	for i := 0; i < c.N; i++ {
@@ -64,6 +64,8 @@ func (area) Run(c *core.Ctx) error {
 			externalCase(c, r)
 		case 8:
 			malformedCase(c, r)
+		case 9:
+			streamCase(c, r)
 		}
 	}
 	return nil
@@ -454,6 +456,13 @@ func bitsCase(c *core.Ctx, r *rand.Rand) {
 	}
 }
 
+func minInt(a, b int) int {
+	if a < b {
+		return a
+	}
+	return b
+}
+
 func rerr(err error) string {
 	if err == nil {
 		return "nil"
@@ -496,6 +505,15 @@ func xorCase(c *core.Ctx, r *rand.Rand) {
 			c.Op("xd new 0 "+hx(data), "ok")
 		} else {
 			c.Branch("xor-decoder-reused")
+			if r.Intn(2) == 0 {
+				// fault-then-reuse: run the decoder into its sticky error on a truncated stream first
+				c.Branch("xor-decoder-fault-before-reuse")
+				cut := cp(data[:r.Intn(minInt(len(data), 9))])
+				guard(c, "xd reset 0 "+hx(cut), func() string { dbuf.SetBuf(cut); drd.Reset(); dec.Reset(); return "ok" })
+				for k := 0; k < 3; k++ {
+					guard(c, "xd next 0", func() string { ok := dec.Next(); return fmt.Sprintf("%v %d", ok, dec.Value()) })
+				}
+			}
 			guard(c, "xd reset 0 "+hx(data), func() string { dbuf.SetBuf(data); drd.Reset(); dec.Reset(); return "ok" })
 		}
 		for i := 0; i < n+2; i++ {
@@ -594,6 +612,13 @@ func resetDecoder(c *core.Ctx, dec *encoding.TSDDecoder, b *tsdBlock) {
 	} else {
 		guard(c, "td reset 0 "+hx(b.data), func() string { dec.Reset(b.data); return "ok" })
 	}
+	guard(c, "td err 0", func() string {
+		// series.BinaryPrimitiveIterator.HasNext refuses to iterate while Error() != nil
+		if dec.Error() != nil {
+			c.Fail("tsd-error-survives-reset", fmt.Sprintf("block [%d,%d]: Error() is still set after Reset on a valid block: %v", b.start, b.end(), dec.Error()))
+		}
+		return fmt.Sprintf("%v", dec.Error() != nil)
+	})
 	guard(c, "td se 0", func() string {
 		if int(dec.StartTime()) != b.start || int(dec.EndTime()) != b.end() {
 			c.Fail("tsd-time-range", fmt.Sprintf("block [%d,%d] decodes as [%d,%d]", b.start, b.end(), dec.StartTime(), dec.EndTime()))
@@ -679,6 +704,43 @@ func readSlots(c *core.Ctx, r *rand.Rand, dec *encoding.TSDDecoder, b *tsdBlock)
 	return got
 }
 
+// poisonBytes: a dense 2-slot block [0,1] cut inside its first value. Reading it drives the bit
+// reader (index out of range), the XOR decoder (sticky err) and the TSD decoder (err) into their
+// error states.
+func poisonBytes(r *rand.Rand) []byte {
+	e := encoding.NewTSDEncoder(0)
+	e.AppendTime(bit.One)
+	e.AppendValue(r.Uint64() | 1)
+	e.AppendTime(bit.One)
+	e.AppendValue(r.Uint64())
+	d, _ := e.Bytes()
+	return cp(d)[:4+1+r.Intn(8)]
+}
+
+// poisonDecoder: fault-then-reuse histories. The decoder (handle 0) reads a truncated block until
+// every layer has failed; the caller then re-arms it (directly or through the pool) on a valid block.
+func poisonDecoder(c *core.Ctx, r *rand.Rand, dec *encoding.TSDDecoder) {
+	c.Branch("tsd-decoder-fault-before-reuse")
+	data := poisonBytes(r)
+	guard(c, "td reset 0 "+hx(data), func() string { dec.Reset(data); return "ok" })
+	for s := 0; s <= 1; s++ {
+		guard(c, fmt.Sprintf("td gv 0 %d", s), func() string {
+			f, ok := dec.GetValue(uint16(s))
+			if !ok {
+				return "false"
+			}
+			return fmt.Sprintf("true %d", math.Float64bits(f))
+		})
+	}
+	guard(c, "td val 0", func() string { return fmt.Sprintf("%d", dec.Value()) })
+	guard(c, "td err 0", func() string {
+		if dec.Error() == nil {
+			c.Note("poison block did not fail the decoder")
+		}
+		return fmt.Sprintf("%v", dec.Error() != nil)
+	})
+}
+
 func tsdCase(c *core.Ctx, r *rand.Rand) {
 	var enc *encoding.TSDEncoder
 	var dec *encoding.TSDDecoder
@@ -690,10 +752,29 @@ func tsdCase(c *core.Ctx, r *rand.Rand) {
 			encoding.ReleaseTSDDecoder(dec)
 		}
 	}()
+	// warm-up, so that what the pools hold at the start of the case does not depend on earlier
+	// cases: one encoder that was used for 3 slots and one decoder that failed on a truncated block
+	// are released; the first Get of the case will (normally) return exactly these objects.
+	{
+		var we *encoding.TSDEncoder
+		guard(c, "te get 0 7", func() string { we = encoding.GetTSDEncoder(7); return "ok" })
+		for k := 0; k < 3; k++ {
+			guard(c, "te time 0 1", func() string { we.AppendTime(bit.One); return "ok" })
+			v := r.Uint64()
+			guard(c, fmt.Sprintf("te val 0 %d", v), func() string { we.AppendValue(v); return "ok" })
+		}
+		encoding.ReleaseTSDEncoder(we)
+		c.Op("te rel 0", "ok")
+		var wd *encoding.TSDDecoder
+		guard(c, "td get 0", func() string { wd = encoding.GetTSDDecoder(); return "ok" })
+		poisonDecoder(c, r, wd)
+		encoding.ReleaseTSDDecoder(wd)
+		c.Op("td rel 0", "ok")
+	}
 	rounds := 2 + r.Intn(4)
 	for round := 0; round < rounds; round++ {
 		n := genLen(r, c.Tier)
-		if r.Intn(25) == 0 {
+		if r.Intn(25) == 0 && round != 0 {
 			n = 0
 		}
 		b := &tsdBlock{start: genStart(r, n), mask: genMask(r, n), vals: make([]uint64, n), noTime: r.Intn(4) == 0 && n > 0}
@@ -703,13 +784,17 @@ func tsdCase(c *core.Ctx, r *rand.Rand) {
 			prev = b.vals[i]
 		}
 		// obtain the encoder: fresh, from the pool, or the previous object re-armed
-		switch k := r.Intn(4); {
+		k := r.Intn(4)
+		if round == 1 {
+			k = 1 // every case: an encoder that wrote >= 1 slot is released and taken again
+		}
+		switch {
 		case enc == nil || k == 0:
 			if enc != nil {
 				encoding.ReleaseTSDEncoder(enc)
 				c.Op("te rel 0", "ok")
 			}
-			if r.Intn(2) == 0 {
+			if r.Intn(3) == 0 {
 				c.Branch("tsd-encoder-new")
 				guard(c, fmt.Sprintf("te new 0 %d", b.start), func() string { enc = encoding.NewTSDEncoder(uint16(b.start)); return "ok" })
 			} else {
@@ -766,12 +851,18 @@ func tsdCase(c *core.Ctx, r *rand.Rand) {
 				}
 			case k == 1:
 				c.Branch("tsd-decoder-released-and-reacquired")
+				if r.Intn(2) == 0 {
+					poisonDecoder(c, r, dec)
+				}
 				encoding.ReleaseTSDDecoder(dec)
 				c.Op("td rel 0", "ok")
 				guard(c, "td get 0", func() string { dec = encoding.GetTSDDecoder(); return "ok" })
 				resetDecoder(c, dec, b)
 			default:
 				c.Branch("tsd-decoder-reset")
+				if r.Intn(3) == 0 {
+					poisonDecoder(c, r, dec)
+				}
 				resetDecoder(c, dec, b)
 			}
 			if pass == 0 {
@@ -953,6 +1044,20 @@ func deltaCase(c *core.Ctx, r *rand.Rand) {
 			guard(c, "dd new 0 "+hx(data), func() string { dec = encoding.NewDeltaBitPackingDecoder(data); return "ok" })
 		} else {
 			c.Branch("delta-decoder-reset")
+			if r.Intn(2) == 0 && len(data) > 0 {
+				// fault-then-reuse: a truncated buffer first (header / bit reads fail, errors are ignored by the code)
+				c.Branch("delta-decoder-fault-before-reuse")
+				cut := cp(data[:r.Intn(len(data))])
+				guard(c, "dd reset 0 "+hx(cut), func() string { dec.Reset(cut); return "ok" })
+				for k := 0; k < 3; k++ {
+					has := false
+					guard(c, "dd hasnext 0", func() string { has = dec.HasNext(); return fmt.Sprintf("%v", has) })
+					if !has {
+						break
+					}
+					guard(c, "dd next 0", func() string { return fmt.Sprintf("%d", dec.Next()) })
+				}
+			}
 			guard(c, "dd reset 0 "+hx(data), func() string { dec.Reset(data); return "ok" })
 		}
 		var got []int32
@@ -1110,6 +1215,21 @@ func fixedOffsetCase(c *core.Ctx, r *rand.Rand) {
 			}
 		default:
 			c.Branch("fo-decoder-reused")
+			if r.Intn(2) == 0 {
+				c.Branch("fo-decoder-fault-before-reuse")
+				bad := make([]byte, r.Intn(8))
+				r.Read(bad)
+				if len(bad) > 0 {
+					bad[0] = byte(r.Intn(7))
+				}
+				guard(c, "fd unm 0 "+hx(bad), func() string {
+					l, err := dec.Unmarshal(bad)
+					if err != nil {
+						return foErr(err)
+					}
+					return "ok " + hx(l)
+				})
+			}
 		}
 		var left []byte
 		var uerr error
@@ -1264,11 +1384,16 @@ func externalCase(c *core.Ctx, r *rand.Rand) {
 		}()
 		c.Note(fmt.Sprintf("bitmap cardinality=%d", bm.GetCardinality()))
 	}
-	// snappy chunk writer / reader, both reused across chunks
+	// snappy chunk writer / reader, both reused across chunks. Every chunk is decoded right away
+	// AND again after all later chunks were written and decoded (what Bytes() returned for chunk 1
+	// must still be chunk 1 after chunk 2 went through the same writer).
 	w := compress.NewSnappyWriter()
 	rd := compress.NewSnappyReader()
 	var prevOut, prevCopy []byte // observation only: Uncompress returns its internal buffer
-	for k := 0; k < 1+r.Intn(4); k++ {
+	type chunk struct{ comp, plain []byte }
+	var chunks []chunk
+	nChunks := 2 + r.Intn(3)
+	for k := 0; k < nChunks; k++ {
 		c.Branch("snappy-roundtrip")
 		var plain []byte
 		func() {
@@ -1277,9 +1402,9 @@ func externalCase(c *core.Ctx, r *rand.Rand) {
 					c.Fail("panic", fmt.Sprintf("snappy codec panicked: %v", e))
 				}
 			}()
-			rows := r.Intn(6)
+			rows := 1 + r.Intn(5)
 			for j := 0; j < rows; j++ {
-				row := make([]byte, r.Intn(3000))
+				row := make([]byte, 1+r.Intn(3000))
 				if r.Intn(2) == 0 {
 					r.Read(row)
 				} else {
@@ -1296,6 +1421,7 @@ func externalCase(c *core.Ctx, r *rand.Rand) {
 				c.Fail("snappy-roundtrip", "close error: "+err.Error())
 			}
 			comp := w.Bytes()
+			chunks = append(chunks, chunk{comp: comp, plain: plain}) // comp is kept as returned, NOT copied
 			out, err := rd.Uncompress(comp)
 			if err != nil {
 				c.Fail("snappy-roundtrip", "uncompress error: "+err.Error())
@@ -1312,6 +1438,20 @@ func externalCase(c *core.Ctx, r *rand.Rand) {
 			prevOut, prevCopy = out, cp(out)
 		}()
 		c.Note(fmt.Sprintf("snappy plain=%d", len(plain)))
+	}
+	for k, ch := range chunks {
+		c.Branch("snappy-chunk-decoded-after-later-chunks")
+		func() {
+			defer func() {
+				if e := recover(); e != nil {
+					c.Fail("panic", fmt.Sprintf("snappy codec panicked: %v", e))
+				}
+			}()
+			out, err := compress.NewSnappyReader().Uncompress(ch.comp)
+			if err != nil || !bytes.Equal(out, ch.plain) {
+				c.Fail("snappy-chunk-changed-by-later-chunk", fmt.Sprintf("chunk %d of %d (same writer): Bytes() result no longer decodes to what was written after later chunks were written (err=%v, %d plain bytes, %d decoded)", k, len(chunks), err, len(ch.plain), len(out)))
+			}
+		}()
 	}
 	// something for the model side as well, so the case is not empty in the diffed streams
 	opUv(c, genEdgeU64(r))
@@ -1454,5 +1594,305 @@ func malformedCase(c *core.Ctx, r *rand.Rand) {
 		})
 		fb = make([]byte, r.Intn(6)) // second pass: reuse the decoder on something else
 		r.Read(fb)
+	}
+}
+
+// ---------------------------------------------------------------- pkg/stream + TSD stream
+
+func sErr(err error) string {
+	switch {
+	case err == nil:
+		return "nil"
+	case errors.Is(err, io.EOF):
+		return "eof"
+	case errors.Is(err, stream.ErrUnexpectedRead):
+		return "unexpected"
+	case strings.Contains(err.Error(), "overflows"):
+		return "overflow"
+	}
+	return "other:" + err.Error()
+}
+
+func srState(rd *stream.Reader) string {
+	return fmt.Sprintf("%d %v %s", rd.Position(), rd.Empty(), sErr(rd.Error()))
+}
+
+type putOp struct {
+	kind string
+	u    uint64
+	i    int64
+	b    []byte
+}
+
+func streamCase(c *core.Ctx, r *rand.Rand) {
+	c.NonTrivial()
+	// --- writer, then the same shapes read back
+	w := stream.NewBufferWriter(nil)
+	c.Op("sw new 0", "-")
+	out := func() string { b, _ := w.Bytes(); return hx(b) }
+	var puts []putOp
+	for k := 0; k < 4+r.Intn(14); k++ {
+		switch r.Intn(8) {
+		case 0:
+			b := r.Intn(256)
+			guard(c, fmt.Sprintf("sw byte 0 %d", b), func() string { w.PutByte(byte(b)); return out() })
+			puts = append(puts, putOp{kind: "byte", u: uint64(b)})
+		case 1:
+			b := make([]byte, r.Intn(6))
+			r.Read(b)
+			guard(c, "sw bytes 0 "+hx(b), func() string { w.PutBytes(b); return out() })
+			puts = append(puts, putOp{kind: "bytes", b: b})
+		case 2:
+			v := uint16(genEdgeU64(r))
+			guard(c, fmt.Sprintf("sw u16 0 %d", v), func() string { w.PutUInt16(v); return out() })
+			puts = append(puts, putOp{kind: "u16", u: uint64(v)})
+		case 3:
+			v := uint32(genEdgeU64(r))
+			guard(c, fmt.Sprintf("sw u32 0 %d", v), func() string { w.PutUint32(v); return out() })
+			puts = append(puts, putOp{kind: "u32", u: uint64(v)})
+		case 4:
+			v := genEdgeU64(r)
+			guard(c, fmt.Sprintf("sw u64 0 %d", v), func() string { w.PutUint64(v); return out() })
+			puts = append(puts, putOp{kind: "u64", u: v})
+		case 5:
+			v := genEdgeU64(r)
+			guard(c, fmt.Sprintf("sw uv 0 %d", v), func() string { w.PutUvarint64(v); return out() })
+			puts = append(puts, putOp{kind: "uv64", u: v})
+		case 6:
+			v := int64(genEdgeU64(r))
+			guard(c, fmt.Sprintf("sw sv 0 %d", v), func() string { w.PutVarint64(v); return out() })
+			puts = append(puts, putOp{kind: "sv64", i: v})
+		default:
+			v := int32(genEdgeU64(r))
+			guard(c, fmt.Sprintf("sw sv 0 %d", v), func() string { w.PutVarint32(v); return out() })
+			puts = append(puts, putOp{kind: "sv32", i: int64(v)})
+		}
+	}
+	data, _ := w.Bytes()
+	data = cp(data)
+	rd := stream.NewReader(data)
+	c.Op("sr new 0 "+hx(data), "ok")
+	for i, p := range puts {
+		bad := func(got interface{}) {
+			c.Fail("stream-roundtrip", fmt.Sprintf("put %d (%s): wrote %d/%d/%x, read %v err=%v", i, p.kind, p.u, p.i, p.b, got, rd.Error()))
+		}
+		switch p.kind {
+		case "byte":
+			guard(c, "sr byte 0", func() string {
+				v := rd.ReadByte()
+				if uint64(v) != p.u || rd.Error() != nil {
+					bad(v)
+				}
+				return fmt.Sprintf("%d %s", v, srState(rd))
+			})
+		case "bytes":
+			op := "slice"
+			if r.Intn(2) == 0 {
+				op = "bytes"
+			}
+			guard(c, fmt.Sprintf("sr %s 0 %d", op, len(p.b)), func() string {
+				var v []byte
+				if op == "slice" {
+					v = rd.ReadSlice(len(p.b))
+				} else {
+					v = rd.ReadBytes(len(p.b))
+				}
+				if !bytes.Equal(v, p.b) || rd.Error() != nil {
+					bad(v)
+				}
+				return fmt.Sprintf("%s %s", hx(v), srState(rd))
+			})
+		case "u16":
+			guard(c, "sr u16 0", func() string {
+				v := rd.ReadUint16()
+				if uint64(v) != p.u || rd.Error() != nil {
+					bad(v)
+				}
+				return fmt.Sprintf("%d %s", v, srState(rd))
+			})
+		case "u32":
+			guard(c, "sr u32 0", func() string {
+				v := rd.ReadUint32()
+				if uint64(v) != p.u || rd.Error() != nil {
+					bad(v)
+				}
+				return fmt.Sprintf("%d %s", v, srState(rd))
+			})
+		case "u64":
+			guard(c, "sr u64 0", func() string {
+				v := rd.ReadUint64()
+				if v != p.u || rd.Error() != nil {
+					bad(v)
+				}
+				return fmt.Sprintf("%d %s", v, srState(rd))
+			})
+		case "uv64":
+			guard(c, "sr uv64 0", func() string {
+				v := rd.ReadUvarint64()
+				if v != p.u || rd.Error() != nil {
+					bad(v)
+				}
+				return fmt.Sprintf("%d %s", v, srState(rd))
+			})
+		case "sv64":
+			guard(c, "sr sv64 0", func() string {
+				v := rd.ReadVarint64()
+				if v != p.i || rd.Error() != nil {
+					bad(v)
+				}
+				return fmt.Sprintf("%d %s", v, srState(rd))
+			})
+		case "sv32":
+			guard(c, "sr sv32 0", func() string {
+				v := rd.ReadVarint32()
+				if int64(v) != p.i || rd.Error() != nil {
+					bad(v)
+				}
+				return fmt.Sprintf("%d %s", v, srState(rd))
+			})
+		}
+	}
+	if !rd.Empty() {
+		c.Fail("stream-roundtrip", "bytes left after reading back every put")
+	}
+	// --- free-form reads, error branches included (correspondence only)
+	raw := make([]byte, r.Intn(24))
+	for i := range raw {
+		if r.Intn(3) == 0 {
+			raw[i] = byte(0x80 | r.Intn(128))
+		} else {
+			raw[i] = byte(r.Intn(256))
+		}
+	}
+	rd2 := stream.NewReader(raw)
+	c.Op("sr new 1 "+hx(raw), "ok")
+	for k := 0; k < 8+r.Intn(12); k++ {
+		switch r.Intn(14) {
+		case 0:
+			guard(c, "sr byte 1", func() string { v := rd2.ReadByte(); return fmt.Sprintf("%d %s", v, srState(rd2)) })
+		case 1:
+			guard(c, "sr u16 1", func() string { v := rd2.ReadUint16(); return fmt.Sprintf("%d %s", v, srState(rd2)) })
+		case 2:
+			guard(c, "sr u32 1", func() string { v := rd2.ReadUint32(); return fmt.Sprintf("%d %s", v, srState(rd2)) })
+		case 3:
+			guard(c, "sr u64 1", func() string { v := rd2.ReadUint64(); return fmt.Sprintf("%d %s", v, srState(rd2)) })
+		case 4:
+			guard(c, "sr uv64 1", func() string { v := rd2.ReadUvarint64(); return fmt.Sprintf("%d %s", v, srState(rd2)) })
+		case 5:
+			guard(c, "sr uv32 1", func() string { v := rd2.ReadUvarint32(); return fmt.Sprintf("%d %s", v, srState(rd2)) })
+		case 6:
+			guard(c, "sr sv64 1", func() string { v := rd2.ReadVarint64(); return fmt.Sprintf("%d %s", v, srState(rd2)) })
+		case 7:
+			guard(c, "sr sv32 1", func() string { v := rd2.ReadVarint32(); return fmt.Sprintf("%d %s", v, srState(rd2)) })
+		case 8:
+			n := r.Intn(8) - 1
+			c.Branch("stream-read-bytes")
+			guard(c, fmt.Sprintf("sr bytes 1 %d", n), func() string { v := rd2.ReadBytes(n); return fmt.Sprintf("%s %s", hx(v), srState(rd2)) })
+		case 9:
+			n := r.Intn(8) - 1
+			c.Branch("stream-read-slice")
+			guard(c, fmt.Sprintf("sr slice 1 %d", n), func() string { v := rd2.ReadSlice(n); return fmt.Sprintf("%s %s", hx(v), srState(rd2)) })
+		case 10:
+			n := r.Intn(len(raw)+4) - 1
+			c.Branch("stream-read-at")
+			guard(c, fmt.Sprintf("sr at 1 %d", n), func() string { rd2.ReadAt(n); return fmt.Sprintf("- %s", srState(rd2)) })
+		case 11:
+			ch := r.Intn(256)
+			if len(raw) > 0 && r.Intn(2) == 0 {
+				ch = int(raw[r.Intn(len(raw))])
+			}
+			c.Branch("stream-read-until")
+			guard(c, fmt.Sprintf("sr until 1 %d", ch), func() string { v := rd2.ReadUntil(byte(ch)); return fmt.Sprintf("%s %s", hx(v), srState(rd2)) })
+		case 12:
+			guard(c, "sr unread 1", func() string { v := rd2.UnreadSlice(); return fmt.Sprintf("%s %s", hx(v), srState(rd2)) })
+		default:
+			c.Branch("stream-reader-reset")
+			guard(c, "sr reset 1 "+hx(raw), func() string { rd2.Reset(raw); return fmt.Sprintf("- %s", srState(rd2)) })
+		}
+	}
+	// --- TSD stream: several fields over one slot range, read back through the pooled field decoder;
+	// two readers in a row, so the second one is handed the decoder the first one released
+	n := 1 + r.Intn(20)
+	start := r.Intn(3000)
+	for round := 0; round < 2; round++ {
+		c.Branch("tsd-stream-roundtrip")
+		nf := 1 + r.Intn(4)
+		type fld struct {
+			id int
+			b  *tsdBlock
+		}
+		var flds []fld
+		sw := encoding.NewTSDStreamWriter(uint16(start), uint16(start+n-1))
+		c.Op(fmt.Sprintf("tsw new 0 %d %d", start, start+n-1), "ok")
+		for f := 0; f < nf; f++ {
+			b := &tsdBlock{start: start, mask: genMask(r, n), vals: make([]uint64, n)}
+			prev := r.Uint64()
+			enc := encoding.GetTSDEncoder(uint16(start))
+			for i := range b.vals {
+				b.vals[i] = genU64(r, prev)
+				prev = b.vals[i]
+				if b.mask[i] {
+					enc.AppendTime(bit.One)
+					enc.AppendValue(b.vals[i])
+				} else {
+					enc.AppendTime(bit.Zero)
+				}
+			}
+			d, _ := enc.BytesWithoutTime()
+			b.data = cp(d)
+			encoding.ReleaseTSDEncoder(enc)
+			id := r.Intn(65536)
+			flds = append(flds, fld{id, b})
+			guard(c, fmt.Sprintf("tsw field 0 %d %s", id, hx(b.data)), func() string { sw.WriteField(uint16(id), b.data); return "ok" })
+		}
+		var sdata []byte
+		guard(c, "tsw bytes 0", func() string { d, _ := sw.Bytes(); sdata = cp(d); return hx(sdata) })
+		var sr encoding.TSDStreamReader
+		guard(c, "tsr new 0 "+hx(sdata)+" 5", func() string {
+			sr = encoding.NewTSDStreamReader(sdata)
+			s0, e0 := sr.TimeRange()
+			if int(s0) != start || int(e0) != start+n-1 {
+				c.Fail("tsd-stream-roundtrip", fmt.Sprintf("time range [%d,%d] read back as [%d,%d]", start, start+n-1, s0, e0))
+			}
+			return fmt.Sprintf("%d %d", s0, e0)
+		})
+		if sr == nil {
+			return
+		}
+		for f := 0; f <= nf; f++ {
+			more := false
+			guard(c, "tsr hasnext 0", func() string { more = sr.HasNext(); return fmt.Sprintf("%v", more) })
+			if more != (f < nf) {
+				c.Fail("tsd-stream-roundtrip", fmt.Sprintf("HasNext()=%v before field %d of %d", more, f, nf))
+			}
+			if !more || f == nf {
+				break
+			}
+			var dec *encoding.TSDDecoder
+			guard(c, "tsr next 0", func() string {
+				id, d := sr.Next()
+				dec = d
+				if int(id) != flds[f].id {
+					c.Fail("tsd-stream-roundtrip", fmt.Sprintf("field %d: id %d read back as %d", f, flds[f].id, id))
+				}
+				return fmt.Sprintf("%d", id)
+			})
+			if dec == nil {
+				break
+			}
+			got := map[int]uint64{}
+			for s := start; s <= start+n-1; s++ {
+				guard(c, fmt.Sprintf("td gv 5 %d", s), func() string {
+					fv, ok := dec.GetValue(uint16(s))
+					if !ok {
+						return "false"
+					}
+					got[s] = math.Float64bits(fv)
+					return fmt.Sprintf("true %d", math.Float64bits(fv))
+				})
+			}
+			checkAgainst(c, "tsd-stream field", flds[f].b, got)
+		}
+		guard(c, "tsr close 0", func() string { sr.Close(); return "ok" })
 	}
 }
